@@ -39,7 +39,7 @@ ValuesOf(cfg, i) ==
 MkB(os, ds, acc, cfg, bd, body, mu, xb, xq, rb, un) ==
    [nilsec |-> FALSE, unsized |-> un, opSec |-> os, docSec |-> ds, accepts |-> acc, pparams |-> ParamsOf(cfg, "p", 1), oparams |-> ParamsOf(cfg, "o", 1),
     values |-> ValuesOf(cfg, 1), bdecl |-> bd, body |-> body, multi |-> mu, exclBody |-> xb, exclQuery |-> xq, authReadsBody |-> rb, hist |-> <<>>,
-    opts |-> "plain", prefs |-> "none"]
+    opts |-> "plain", prefs |-> "none", method |-> "post"]
 MkU(os, ds, acc, cfg, body, mu, xb, xq, rb, un) ==
    MkB(os, ds, acc, cfg, IF body = "none" THEN "none" ELSE "required", body, mu, xb, xq, rb, un)
 
@@ -59,8 +59,13 @@ HCfg(p, o, p2) == <<[p |-> p, o |-> o], [p |-> p2, o |-> "none"], [p |-> "none",
 HValues(t) == IF t = "-" THEN <<>> ELSE <<V("query", "a", t)>>
 HBase(os, ds, acc, cfg, t, bd, body, mu) ==
    [nilsec |-> FALSE, unsized |-> FALSE, opSec |-> os, docSec |-> ds, accepts |-> acc, pparams |-> ParamsOf(cfg, "p", 1), oparams |-> ParamsOf(cfg, "o", 1),
-    values |-> HValues(t), bdecl |-> bd, body |-> body, multi |-> mu, exclBody |-> FALSE, exclQuery |-> FALSE, authReadsBody |-> FALSE, hist |-> <<>>, opts |-> "plain", prefs |-> "none"]
-Step(via, os, ds, cfg, bd) == [via |-> via, pparams |-> ParamsOf(cfg, "p", 1), oparams |-> ParamsOf(cfg, "o", 1), opSec |-> os, docSec |-> ds, bdecl |-> bd]
+    values |-> HValues(t), bdecl |-> bd, body |-> body, multi |-> mu, exclBody |-> FALSE, exclQuery |-> FALSE, authReadsBody |-> FALSE, hist |-> <<>>, opts |-> "plain", prefs |-> "none", method |-> "post"]
+(* the method of the operation a step validates: the first operation's, except for a sibling (another method of the     *)
+(* same path item)                                                                                                     *)
+StepM(via, m, os, ds, cfg, bd) == [via |-> via, method |-> m, pparams |-> ParamsOf(cfg, "p", 1), oparams |-> ParamsOf(cfg, "o", 1), opSec |-> os, docSec |-> ds, bdecl |-> bd]
+Step(via, os, ds, cfg, bd) == StepM(via, IF via = "sibling" THEN "put" ELSE "post", os, ds, cfg, bd)
+(* every method a path item can hold an operation under, except CONNECT (its request target is an authority, not a path) *)
+Methods == {"get", "put", "post", "delete", "options", "head", "patch", "trace"}
 (* every history ends by going back to the first route (A-B-A): both "the first one seen wins" and "the last one seen  *)
 (* wins" show                                                                                                          *)
 WithHist(b, s) == [b EXCEPT !.hist = <<s, StepOf(b, "back")>>]
@@ -84,6 +89,19 @@ ScopeSecs == {Absent, L(<< <<"A+r">> >>), L(<< <<"A+r">>, <<"A+w">> >>), L(<< <<
 
 VARIABLE case
 Init ==
+   \* method focus: the operation lives under each method of the path item; what it declares as body and what the request
+   \* carries, the body exclusion and a failing parameter next to it -- the verdict does not depend on the method
+   \/ \E m \in Methods, bd \in BDecls, body \in Bodies, sec \in {"nosec", "pass", "fail"}, mu \in BOOLEAN, xb \in BOOLEAN,
+         cfg \in {NoParams, OneFailingQuery, PathLevelFailingQuery} :
+        /\ (Tier = "quick" => sec = "nosec" /\ cfg # PathLevelFailingQuery /\ (cfg = OneFailingQuery => mu))
+        /\ case = [MkB(IF sec = "nosec" THEN Absent ELSE L(<< <<"A">> >>), <<>>, IF sec = "pass" THEN {"A"} ELSE {},
+                       cfg, bd, body, mu, xb, FALSE, FALSE, FALSE) EXCEPT !.method = m]
+   \* method focus, siblings: two operations of one path item under two methods, each with its own body declaration
+   \/ \E mm \in {<<"post", "delete">>, <<"get", "post">>, <<"delete", "get">>, <<"put", "head">>, <<"head", "patch">>, <<"options", "trace">>},
+         bd \in BDecls, bd2 \in BDecls, body \in {"none", "pass", "fail"}, mu \in BOOLEAN :
+        /\ (Tier = "quick" => bd # "optional" /\ bd2 # "optional")
+        /\ LET b == [HBase(Absent, <<>>, {}, HCfg("none", "none", "none"), "-", bd, body, mu) EXCEPT !.method = mm[1]] IN
+           case = WithHist(b, StepM("sibling", mm[2], Absent, <<>>, HCfg("none", "none", "none"), bd2))
    \* location focus: path, cookie and header parameters of one name, every override pattern over at most two of them (a
    \* path parameter is always required and always present: the route would not match otherwise)
    \/ \E cfg \in [1..3 -> KeyCfgs], mu \in BOOLEAN :
